@@ -64,6 +64,7 @@ Record case := {
   c_root : path;                        (* project root inside the disk tree, e.g. [proj] *)
   c_tree : list (path * node);          (* disk tree before Project.do *)
   c_change : change;                    (* what get_changes returned *)
+  c_links : list (path * path);         (* symbolic links on disk before the call: (link, target), disk paths *)
   c_stp : option nat;                   (* Project.do ran under a TaskHandle whose observer calls stop() during its
                                            n-th notification (None: no task handle) *)
   o_announced : list path;              (* get_changed_resources(), rope paths *)
@@ -98,7 +99,7 @@ Definition below_all (root : path) (ps : list path) : bool := forallb (is_prefix
      16384 observed trace = expected_events of the change (mutating part), when do returned *)
 Definition report1 (c : case) : N :=
   let m0 : fs := list_to_map (c_tree c) in
-  let rc := realize (c_root c) (c_change c) in
+  let rc := realize_l (c_root c) (c_links c) (c_change c) in
   let s0 := Hist m0 [] [] 100 in
   let k0 := Sched None (c_stp c) false false in
   let '(r, tr) := trun repaired fuel true (notify k0) Do rc m0 in
@@ -134,7 +135,7 @@ Definition report1 (c : case) : N :=
   let obs_paths := flat_map ev_paths (o_trace c) ++ flat_map ev_paths (o_utrace c) in
   (bit do_bad 1 + bit tree_bad 2 + bit trace_bad 4 + bit ann_bad 8 + bit undo_bad 16 + bit utrace_bad 32
    + bit (negb (Nat.eqb (o_compute_writes c) 0)) 64
-   + bit (all_in_root (c_change c)) 128
+   + bit (all_in_root (c_change c) && no_link_edits (c_root c) (c_links c) (c_change c)) 128
    + bit (forallb (footprint rc) (ch_do ++ ch_undo)) 256
    + bit (below_all (c_root c) obs_paths) 512
    + bit (below_all (c_root c) (ch_do ++ ch_undo)) 1024
@@ -144,4 +145,28 @@ Definition report1 (c : case) : N :=
    + bit (if o_raised c then false
           else events_eqb (audited (expected_events rc)) (o_trace c)) 16384)%N.
 
+(* C09_move_lands_at_destination evaluated on the OBSERVED trees: every MoveResource leaf (source <> destination,
+   destination not below the source) left nothing at its source and a node of the source's kind at its destination *)
+Fixpoint moves (c : change) : list (path * path) :=
+  match c with
+  | MV p q _ => [(p, q)]
+  | CS _ cs => (fix go (l : list change) := match l with [] => [] | c :: r => moves c ++ go r end) cs
+  | _ => []
+  end.
+
+Definition kind_eqb (a b : option node) : bool :=
+  match a, b with
+  | Some (File _), Some (File _) | Some Dir, Some Dir => true
+  | _, _ => false
+  end.
+
+Definition landed1 (c : case) : bool :=
+  let m : fs := list_to_map (c_tree c) in
+  let m' : fs := list_to_map (o_tree c) in
+  forallb (fun pq => text_eqb (fst pq) (snd pq) || is_prefix (fst pq) (snd pq)
+                     || (kind_eqb (m !! fst pq) (m' !! snd pq)
+                         && match m' !! fst pq with None => true | Some _ => false end))
+          (moves (realize (c_root c) (c_change c))).
+
 Definition report (cs : list case) : list N := map report1 cs.
+Definition landed (cs : list case) : list N := map (fun c => if landed1 c then 1%N else 0%N) cs.
